@@ -29,7 +29,8 @@ CFG = dict(
          "shows; every Submit* signature is verified over EXACTLY the object handed to the beacon mock and that object must belong to the current duty; "
          "an implementation-side probe runs the voluntary-exit runner with a failing own broadcast. Systematic block: n=4, one faulty member, EVERY arrival order "
          "(5! orders x 6 duty/bad-root configurations). A case class is distinct per (runner, n, outcome, share-quality class, #entries).",
-    trusted_base=["threshold BLS: Lagrange recovery over the stored shares followed by verification under the validator key succeeds iff every stored share "
+    trusted_base=["the correspondence run only uses committees whose operator ids are 1..n (key sets of the spec test kit): code that confuses an operator id with a committee position is NOT distinguished by it (campaign V, V-m03: missed); the Lean model itself is general (signer ∈ committee)",
+                  "threshold BLS: Lagrange recovery over the stored shares followed by verification under the validator key succeeds iff every stored share "
                   "is correct and there are at least Share.Quorum of them (exercised with real BLS by the differential run; cancelling wrong shares are not generated)",
                   "partial signatures are 96 bytes (SSZ decoding guarantees it before the runner sees them)",
                   "mocks: recording beacon node that accepts every submission, recording network, spec test key manager"],
